@@ -246,6 +246,22 @@ fn run_ref_interop(plan: &Plan, lib: &dyn Lib, rec: &mut Rec) {
     rec.expect("C18", "library-verifies-reference-proof", o.is_ok(), || format!("elgamal ref->lib g={} | {:?}", g.name(), o));
     let o = rec.call(lib, g, Op::EgVerifyDecrypt, &[&bytes, &a.sk]);
     rec.expect("C18", "library-verifies-reference-proof", o.first() == Some(h.mul(&m).to_bytes().as_slice()), || format!("elgamal ref->lib verify_and_decrypt g={} | {:?}", g.name(), o.kind()));
+    // an APPLICATION's tag at the trait-level entry points (hash-to-curve frames the tag with a one-byte length; tags longer
+    // than 255 bytes are replaced by their digest, RFC 9380 5.3.3): 0, 1, 43, 254, 255, 256 and 300 bytes — the library
+    // signs what the reference signs, and verifies what the reference signs
+    if let Some(skr) = refimpl::scalar_from_be(&a.sk) {
+        for tl in [0usize, 1, 43, 254, 255, 256, 300] {
+            let tag: Vec<u8> = (0..tl).map(|i| b'A' + (i % 23) as u8).collect();
+            if tl == 0 {
+                continue; // an empty tag is refused by hash-to-curve implementations; not part of any wire format
+            }
+            let want = b.hash_msg(&msg, &tag).mul(&skr).to_bytes();
+            let o = rec.call(lib, g, Op::CoreSign, &[&a.sk, &msg, &tag]);
+            rec.expect("C18", "reference-verifies-library-proof", o.first() == Some(want.as_slice()), || format!("core_sign tag-length={} g={} | the library's signature under an application tag of {} bytes differs from the reference's", tl, g.name(), tl));
+            let o = rec.call(lib, g, Op::CoreVerify, &[&a.pk, &want, &msg, &tag]);
+            rec.expect("C18", "library-verifies-reference-proof", o.is_ok(), || format!("core_verify tag-length={} g={} | the reference's signature under an application tag of {} bytes is rejected: {:?}", tl, g.name(), tl, o));
+        }
+    }
     // the same exchange over an APPLICATION's generator (the trait-level entry points take one): the transcript binds the
     // generator that was used, not the default one
     {
